@@ -375,8 +375,10 @@ func rootOfAddr(v ssa.Value) (kind string, root ssa.Value) {
 // stores into memory allocated in f itself (fresh objects).
 func DirectHeapWrites(f *ssa.Function) []HeapWrite {
 	var out []HeapWrite
-	fresh := func(v ssa.Value) bool {
-		// address derived (through FieldAddr/IndexAddr chains) from an Alloc/MakeMap/MakeSlice in f
+	var fresh func(v ssa.Value, depth int) bool
+	fresh = func(v ssa.Value, depth int) bool {
+		// address derived (through FieldAddr/IndexAddr chains) from an Alloc/MakeMap/MakeSlice in f;
+		// a variable that is nil on some paths and freshly made on the others is fresh where it can be written
 		for i := 0; i < 20; i++ {
 			switch x := v.(type) {
 			case *ssa.Alloc, *ssa.MakeMap, *ssa.MakeSlice:
@@ -385,6 +387,23 @@ func DirectHeapWrites(f *ssa.Function) []HeapWrite {
 				v = x.X
 			case *ssa.IndexAddr:
 				v = x.X
+			case *ssa.Slice:
+				v = x.X
+			case *ssa.Phi:
+				if depth > 3 {
+					return false
+				}
+				n := 0
+				for _, e := range x.Edges {
+					if cst, ok := e.(*ssa.Const); ok && cst.Value == nil {
+						continue
+					}
+					if !fresh(e, depth+1) {
+						return false
+					}
+					n++
+				}
+				return n > 0
 			default:
 				return false
 			}
@@ -395,7 +414,7 @@ func DirectHeapWrites(f *ssa.Function) []HeapWrite {
 		for _, in := range b.Instrs {
 			switch x := in.(type) {
 			case *ssa.Store:
-				if fresh(x.Addr) {
+				if fresh(x.Addr, 0) {
 					continue
 				}
 				kind, _ := rootOfAddr(x.Addr)
@@ -404,7 +423,7 @@ func DirectHeapWrites(f *ssa.Function) []HeapWrite {
 				}
 				out = append(out, HeapWrite{f, in, kind})
 			case *ssa.MapUpdate:
-				if fresh(x.Map) {
+				if fresh(x.Map, 0) {
 					continue
 				}
 				out = append(out, HeapWrite{f, in, "map"})
